@@ -942,8 +942,10 @@ def exhaustive_note(tier="thorough"):
 
 FAMILIES = MODULE_KINDS + ["net:" + c for c in NET_CLASSES]
 # chains per family (one shard each in the quick tier so that every class is produced; the cheap vector modules get more)
-QUICK_EXAMPLES = {"mlp": 60, "lstm": 50, "simba": 50, "resnet": 36, "cnn2d": 36, "cnn3d": 32, "multi": 32}
-THOROUGH_EXAMPLES = {"mlp": 120, "lstm": 100, "simba": 100}
+QUICK_EXAMPLES = {"mlp": 60, "lstm": 50, "simba": 50, "resnet": 40, "cnn2d": 40, "cnn3d": 36, "multi": 36}
+QUICK_DEFAULT = 36
+THOROUGH_EXAMPLES = {"mlp": 60, "lstm": 60, "simba": 60}
+THOROUGH_DEFAULT = 30  # x 16 shards x 14 families ~ 8 000 chains of <= 40 steps, next to ~33 000 enumerated sequences
 
 
 def make_obligations(run_case):
@@ -952,7 +954,7 @@ def make_obligations(run_case):
     obls = []
     for fam in FAMILIES:
         obls.append(Obligation("walk/" + fam.replace("net:", ""), run_case, strategy=walk_strategy(10, 40, family=fam),
-                               examples={"quick": QUICK_EXAMPLES.get(fam, 30), "thorough": THOROUGH_EXAMPLES.get(fam, 60)},
+                               examples={"quick": QUICK_EXAMPLES.get(fam, QUICK_DEFAULT), "thorough": THOROUGH_EXAMPLES.get(fam, THOROUGH_DEFAULT)},
                                shards={"quick": 1, "thorough": 16}, shrink_budget={"quick": 60, "thorough": 300}))
     obls.append(Obligation("enumerated_walks", run_case, enumerate=enumerate_cases, shards={"quick": 2, "thorough": 16},
                            exhaustive_note=exhaustive_note("thorough")))
